@@ -252,6 +252,8 @@ pub struct Universe {
     /// a registry that knows none of the universe's paths
     pub foreign: Arc<PortableRegistry>,
     pub paths: Vec<String>,
+    /// those of `paths` whose registry type declares type parameters
+    pub generic_paths: Vec<String>,
     pub derives: Vec<String>,
     pub attrs: Vec<String>,
     pub queries: Vec<String>,
@@ -413,6 +415,29 @@ pub fn gen_universe(w: &World, rng: &mut Rng, prop: Prop) -> Universe {
     if !single_prelude.is_empty() && rng.chance(1, 3) {
         paths.push(rng.pick(&single_prelude).clone());
     }
+    {
+        let generic_single: Vec<&String> = single
+            .iter()
+            .filter(|p| !e.reg.types[by_path[*p][0] as usize].ty.type_params.is_empty())
+            .collect();
+        if !generic_single.is_empty() && rng.chance(1, 2) {
+            let g = (*rng.pick(&generic_single)).clone();
+            if !paths.contains(&g) {
+                paths.push(g);
+            }
+        }
+    }
+    if prop == Prop::C11 {
+        // the read side has no notion of a "root id": paths carried by several registry entries
+        // (generic instantiations, prelude types) are known paths like any other
+        let multi: Vec<String> = by_path
+            .iter()
+            .filter(|(_, ids)| ids.len() > 1)
+            .map(|(p, _)| p.clone())
+            .collect();
+        let n = rng.usize_below(3).min(multi.len());
+        paths.extend(rng.subset(&multi, n));
+    }
     // unknown paths: unrelated ones and near misses of registry paths (suffix, extension,
     // prefix, sibling module, different case, a prelude type spelled with its std path)
     let mut unknown_pool: Vec<String> = UNKNOWN.iter().map(|s| s.to_string()).collect();
@@ -454,10 +479,21 @@ pub fn gen_universe(w: &World, rng: &mut Rng, prop: Prop) -> Universe {
         })
         .map(|f| Arc::new(f.reg.clone()))
         .unwrap_or_else(|| Arc::new(PortableRegistry { types: vec![] }));
+    let generic_paths: Vec<String> = paths
+        .iter()
+        .filter(|p| {
+            by_path
+                .get(*p)
+                .map(|ids| !e.reg.types[ids[0] as usize].ty.type_params.is_empty())
+                .unwrap_or(false)
+        })
+        .cloned()
+        .collect();
     Universe {
         reg_name: e.name.clone(),
         reg: Arc::new(e.reg.clone()),
         foreign,
+        generic_paths,
         paths,
         derives,
         attrs,
@@ -526,7 +562,27 @@ fn defective_sub(rng: &mut Rng, src: &str, n: usize) -> (String, String, SubErr)
     }
 }
 
-fn good_sub(rng: &mut Rng, src: &str, n: usize) -> (String, String) {
+fn good_sub(rng: &mut Rng, src: &str, n: usize, generic: &[String], allow_shared: bool) -> (String, String) {
+    // now and then a target text that other calls of the run use as well, under differently
+    // declared source generics: the rule in force must carry the parameter mapping of the
+    // LAST call, which only shows in generated code (the history-vs-canonical comparison)
+    if allow_shared && rng.chance(1, 5) {
+        // preferably for a type that has type parameters, where the mapping matters
+        let src = if !generic.is_empty() && rng.chance(3, 4) {
+            rng.pick(generic).as_str()
+        } else {
+            src
+        };
+        let tgt = ["::t::Same<A, B>", "::t::Same", "::t::Same<B>", "::t::Same<A, B>"][rng.usize_below(4)];
+        let s = match rng.below(5) {
+            0 => format!("{src}<A, B>"),
+            1 => format!("{src}<B, A>"),
+            2 => format!("{src}<A>"),
+            3 => format!("{src}<B>"),
+            _ => src.to_string(),
+        };
+        return (s, tgt.to_string());
+    }
     match rng.below(6) {
         0 => (format!("{src}<A, B>"), format!("::t::R{n}<B, A>")),
         1 => (format!("{src}<A>"), format!("::t::R{n}<::core::option::Option<A>>")),
@@ -604,7 +660,7 @@ pub fn gen_history(u: &Universe, seed: u64) -> Vec<HOp> {
                         };
                         (op, Expect::Reject(k))
                     } else {
-                        let (s, t) = good_sub(&mut rng, &src, n_sub);
+                        let (s, t) = good_sub(&mut rng, &src, n_sub, &u.generic_paths, true);
                         let op = match rng.below(5) {
                             0 | 1 => Op::SubInsert { src: s, tgt: t },
                             2 if t.starts_with("::") => Op::SettingsSubstitute { src: s, tgt: t },
@@ -631,7 +687,7 @@ pub fn gen_history(u: &Universe, seed: u64) -> Vec<HOp> {
                             };
                             elems.push((s, t));
                         } else {
-                            elems.push(good_sub(&mut rng, &src, n_sub));
+                            elems.push(good_sub(&mut rng, &src, n_sub, &u.generic_paths, bad_at.is_none()));
                         }
                     }
                     (Op::SubExtend(elems), expect)
@@ -1420,7 +1476,7 @@ fn verdict(u: &Universe, hist: &[HOp], prop: Prop, perm_seed: u64, entropy: [u64
 }
 
 fn universe_json(u: &Universe) -> Value {
-    json!({"probe_registry": u.reg_name, "paths": u.paths, "derives": u.derives, "attrs": u.attrs, "queries": u.queries})
+    json!({"probe_registry": u.reg_name, "paths": u.paths, "generic_paths": u.generic_paths, "derives": u.derives, "attrs": u.attrs, "queries": u.queries})
 }
 
 fn package(prop: Prop, plan: &Plan, hist: &[HOp], class: String, detail: String, run: u64) -> Violation {
@@ -1529,6 +1585,7 @@ pub fn replay(doc: &Value) -> i32 {
             reg: Arc::new(corpus::decode_hex(doc["probe_registry_scale_hex"].as_str().unwrap_or_default())?),
             foreign: Arc::new(corpus::decode_hex(doc["foreign_registry_scale_hex"].as_str().unwrap_or_default())?),
             paths: l("paths"),
+            generic_paths: l("generic_paths"),
             derives: l("derives"),
             attrs: l("attrs"),
             queries: l("queries"),
